@@ -74,7 +74,21 @@ def finalize(ctx):
 
 # ------------------------------------------------------------------------------------------- generation
 def twin_configs(rng):
-    kind = rng.choice(["bounds", "value", "value"])
+    kind = rng.choice(["bounds", "value", "value", "default"])
+    if kind == "default":
+        # same ids, same text form: one rule states a default, its twin spells the same structure out without one
+        its = rng.sample("abcde", 3)
+        d = its[-1]
+        rest = [{"k": "var", "id": i, "b": [0, 1]} for i in its[:-1]]
+        with_default = {"k": "Stingy", "id": "main", "args": [
+            {"k": "ccAny", "id": "R", "args": [{"k": "var", "id": i, "b": [0, 1]} for i in its], "default": [d]},
+            {"k": "AtMost", "id": "S", "value": 2, "args": [{"k": "var", "id": i, "b": [0, 1]} for i in its]}]}
+        spelled_out = {"k": "Stingy", "id": "main", "args": [
+            {"k": "Any", "id": "R", "args": [{"k": "var", "id": d, "b": [0, 1]}, {"k": "Any", "id": None, "args": rest}]},
+            {"k": "AtMost", "id": "S", "value": 2, "args": [{"k": "var", "id": i, "b": [0, 1]} for i in its]}]}
+        pair = [with_default, spelled_out]
+        rng.shuffle(pair)
+        return pair
     if kind == "bounds":
         b1, b2 = rng.choice(recipes.TWINS)
         mk = lambda b: {"k": "Stingy", "id": "main", "args": [
